@@ -1,7 +1,7 @@
 /-
 `HollowRhombicCode`, rank clause, part O: `rankFamily` has `n − 1` members for the sizes with
 `Lz ≥ 5` whose hole is one layer thin in `x` or in `y` and that are not deficient:
-`(3, Ly, 5)`, `(3, 4, Lz)`, `(3, 5, 6)`, `(4, 4, Lz)`, `(Lx, 4, 5)`.  In these sizes every box count that
+`(3, Ly, 5)`, `(3, 4, Lz)`, `(3, 5, Lz)`, `(4, 4, Lz)`, `(Lx, 4, 5)`.  In these sizes every box count that
 depends on the parity of `Lz` is multiplied by `Lx − 3 = 0` or `Ly − 4 = 0`, and the remaining
 counts are linear in the free side.
 -/
@@ -72,11 +72,12 @@ theorem count_3_4_L (Lz : Nat) (hz : 5 ≤ Lz) :
   simp only [if_true, Bool.false_eq_true, if_false] at h1 h2
   omega
 
-/-- `(3, 5, 6)` -/
-theorem count_3_5_6 : (rankFamily 3 5 6).length + 1 = (qubits 3 5 6).length := by
-  obtain ⟨C, T, N, e1, e2, h1, h2, h3⟩ := raw_eqs (Lx := 3) (Ly := 5) (Lz := 6) (by decide) (by decide) (by decide)
+/-- `(3, 5, Lz)`, `Lz ≥ 5` -/
+theorem count_3_5_L (Lz : Nat) (hz : 5 ≤ Lz) :
+    (rankFamily 3 5 Lz).length + 1 = (qubits 3 5 Lz).length := by
+  obtain ⟨C, T, N, e1, e2, h1, h2, h3⟩ := raw_eqs (Lx := 3) (Ly := 5) (Lz := Lz) (by decide) (by decide) hz
   rw [e1, e2]
-  have hq : qn 3 5 6 = 0 := by decide
+  have hq : qn 3 5 Lz = (Lz - 5) / 2 := by unfold qn; simp
   rw [hq] at h2
   simp only [Nat.reduceSub, Nat.reduceMul, Nat.reduceAdd, Nat.zero_mul, Nat.mul_zero, Nat.one_mul,
     Nat.mul_one, Nat.add_zero, Nat.zero_add, half_zero] at h1 h2 h3
